@@ -197,10 +197,9 @@ template<class TableT, class HashF> struct Rig
          case O_PutOrRemove: return t.PutOrRemove(ka, (b == 0) ? ownVb : ValArg(t, ownVb)).IsOK() ? 1 : NA;
          case O_PutAtFront: return t.PutAtFront(ka, ValArg(t, ownVb)).IsOK() ? 1 : NA;
          case O_PutAtBack: return t.PutAtBack(ka, ValArg(t, ownVb)).IsOK() ? 1 : NA;
-         // known finding HputBeforeAlias: the reference key is read after the Put may have reallocated the array - an aliasing reference key is kept out of
-         // the generated calls (directed case: `ht directed putbefore-alias`)
-         case O_PutBefore: return t.PutBefore(ka, ownB, ValArg(t, ownVc)).IsOK() ? 1 : NA;
-         case O_PutBehind: return t.PutBehind(ka, ownB, ValArg(t, ownVc)).IsOK() ? 1 : NA;
+         // (finding HputBeforeAlias, repaired: the reference key used to be read after the Put had reallocated the array; directed case: `ht directed putbefore-alias`)
+         case O_PutBefore: return t.PutBefore(ka, KeyArg(t, ownB), ValArg(t, ownVc)).IsOK() ? 1 : NA;
+         case O_PutBehind: return t.PutBehind(ka, KeyArg(t, ownB), ValArg(t, ownVc)).IsOK() ? 1 : NA;
          case O_PutAtPosition: return t.PutAtPosition(ka, IsBig(b) ? Big(b) : (uint32)(p0+b), ValArg(t, ownVc)).IsOK() ? 1 : NA;
          case O_GetAndMoveToFront: {VT v = VT(); const status_t r = t.GetAndMoveToFront(ka, v); return r.IsOK() ? VI(v) : ((r == B_DATA_NOT_FOUND) ? 0 : NA);}
          case O_GetAndMoveToBack:  {VT v = VT(); const status_t r = t.GetAndMoveToBack(ka, v);  return r.IsOK() ? VI(v) : ((r == B_DATA_NOT_FOUND) ? 0 : NA);}
